@@ -910,6 +910,16 @@ theorem validReg_congr {c c' : Circuit} (h1 : c'.ne = c.ne) (h2 : c'.np = c.np) 
   rcases r with ⟨ty, i⟩
   cases ty <;> simp [Circuit.validReg, Circuit.count, h1, h2, h3] <;> rfl
 
+theorem WF_empty (ne np nc : Nat) : (Circuit.empty ne np nc).WF := by
+  refine ⟨?_, ?_, ?_, ?_, ?_, ?_, ?_⟩
+  · intro n op h; cases h
+  · intro r _; rfl
+  · intro r n h; cases h
+  · intro r; exact List.nodup_nil
+  · intro n op h; cases h
+  · intro n op h; cases h
+  · intro n op h; cases h
+
 structure AssignInv (c c' : Circuit) (P : List Nat) : Prop where
   hne : c'.ne = c.ne
   hnp : c'.np = c.np
@@ -917,17 +927,28 @@ structure AssignInv (c c' : Circuit) (P : List Nat) : Prop where
   hnid : c'.nid = P.length
   bound : ∀ r m, m ∈ c'.wire r → m ≤ c'.nid
   flat : ∀ r, r ∈ c.qregs → c'.F (c'.wire r) = c.F (P.filter fun n => decide (n ∈ c.wire r))
+  wf : c'.WF
+  nodes : ∀ m op, c'.node m = some op → ∃ n, c.node n = some op
 
 theorem assign_step (c c' : Circuit) (P : List Nat) (n : Nat) (op : Op) (hwf : c.WF) (hok : c.OpsOk)
     (hnode : c.node n = some op) (hinv : AssignInv c c' P) :
     c'.add op = Except.ok (c'.addCore op) ∧ AssignInv c (c'.addCore op) (P ++ [n]) := by
-  obtain ⟨hne, hnp, hnc, hnid, hbound, hflat⟩ := hinv
+  obtain ⟨hne, hnp, hnc, hnid, hbound, hflat, hwf', hnodes'⟩ := hinv
   obtain ⟨hnd, hcr⟩ := hok n op hnode
   have hvalid : ∀ r, c'.validReg r = c.validReg r := validReg_congr hne hnp hnc
   refine ⟨add_of_valid c' op (fun r hr => by rw [hvalid]; exact (hwf.qvalid n op hnode r hr).1)
     (fun i hi => by rw [hvalid]; exact validReg_c c i (hcr i hi)), ?_⟩
   have hwire := addCore_wire c' op hnd
-  refine ⟨by rw [addCore_ne]; exact hne, by rw [addCore_np]; exact hnp, by rw [addCore_nc]; exact hnc, ?_, ?_, ?_⟩
+  refine ⟨by rw [addCore_ne]; exact hne, by rw [addCore_np]; exact hnp, by rw [addCore_nc]; exact hnc, ?_, ?_, ?_, ?_, ?_⟩
+  rotate_left 3
+  · exact WF_addCore c' op hwf' hnd
+      (fun r hr => ⟨by rw [hvalid]; exact (hwf.qvalid n op hnode r hr).1, (hwf.qvalid n op hnode r hr).2⟩)
+      (fun i hi => by rw [hvalid]; exact validReg_c c i (hcr i hi))
+  · intro m op' hm
+    rw [addCore_eq, insertAt_node] at hm
+    by_cases hmk : m = c'.nid + 1
+    · rw [if_pos hmk] at hm; cases hm; exact ⟨n, hnode⟩
+    · rw [if_neg hmk] at hm; exact hnodes' m op' hm
   · rw [addCore_eq, insertAt_nid, hnid]; simp
   · intro r m hm
     rw [hwire] at hm
@@ -985,15 +1006,18 @@ theorem assign_fold (c : Circuit) (hwf : c.WF) (hok : c.OpsOk) (seq : List Nat) 
 
 /-- `flat (assign_noise c ∅) = flat c` for every topological order the sequence may come in -/
 theorem flat_assignNoise (c : Circuit) (seq : List Nat) (cf : Circuit) (hwf : c.WF) (hok : c.OpsOk)
-    (h : c.assignNoise seq = Except.ok cf) : cf.flat = c.flat := by
+    (h : c.assignNoise seq = Except.ok cf) :
+    cf.flat = c.flat ∧ cf.WF ∧ ∀ m op, cf.node m = some op → ∃ n, c.node n = some op := by
   unfold Circuit.assignNoise at h
   split at h
   · cases h
   · rename_i hlin
     have hlin' : c.isLinearExtension seq = true := by simpa using hlin
     have h0 : AssignInv c (Circuit.empty c.ne c.np c.nc) [] :=
-      ⟨rfl, rfl, rfl, rfl, fun r m hm => by simp [Circuit.empty] at hm, fun r _ => rfl⟩
+      ⟨rfl, rfl, rfl, rfl, fun r m hm => by simp [Circuit.empty] at hm, fun r _ => rfl,
+       WF_empty _ _ _, fun m op h => by simp [Circuit.empty] at h⟩
     have hinv := assign_fold c hwf hok seq _ [] cf h0 h
+    refine ⟨?_, hinv.wf, hinv.nodes⟩
     refine flat_eq_of hinv.hne hinv.hnp hinv.hnc (fun r hr => ?_)
     rw [flatWire_eq_F, flatWire_eq_F, hinv.flat r hr]
     simp only [Circuit.isLinearExtension, Bool.and_eq_true, List.all_eq_true, decide_eq_true_eq] at hlin'
@@ -1799,5 +1823,223 @@ theorem denote_eq_of_flat_eq {σ : Type} (app : SOp → σ → σ)
         have := hwf.qvalid n op hop r hin
         exact hr (hqr ▸ (mem_qregs c r).mpr this)
       rw [hnone c1 hwf1 rfl, hnone c2 hwf2 hqregs.symm]
+
+/-! ## 8. node-table predicates are preserved by the rewrites -/
+
+/-- every operation of the circuit satisfies `Q` -/
+def Circuit.NodesSat (Q : Op → Prop) (c : Circuit) : Prop := ∀ n op, c.node n = some op → Q op
+
+theorem NodesSat_insertAt {Q : Op → Prop} (c : Circuit) (op : Op) (es : List Edge) (h : c.NodesSat Q) (hop : Q op) :
+    (c.insertAt op es).NodesSat Q := by
+  intro m op' hm
+  rw [insertAt_node] at hm
+  by_cases hmk : m = c.nid + 1
+  · rw [if_pos hmk] at hm; cases hm; exact hop
+  · rw [if_neg hmk] at hm; exact h m op' hm
+
+theorem NodesSat_removeOp {Q : Op → Prop} (c : Circuit) (n : Nat) (h : c.NodesSat Q) : (c.removeOp n).NodesSat Q := by
+  intro m op hm
+  rw [removeOp_node] at hm
+  by_cases hmn : m = n
+  · rw [if_pos hmn] at hm; cases hm
+  · rw [if_neg hmn] at hm; exact h m op hm
+
+theorem NodesSat_removeIdentity {Q : Op → Prop} (c : Circuit) (order : List Nat) (h : c.NodesSat Q) :
+    (c.removeIdentity order).NodesSat Q := by
+  unfold Circuit.removeIdentity
+  induction order generalizing c with
+  | nil => exact h
+  | cons n order ih =>
+    simp only [List.foldl_cons]
+    apply ih
+    split
+    · exact NodesSat_removeOp c n h
+    · exact h
+
+theorem NodesSat_unwrapFold {Q : Op → Prop} (n : Nat) (r : Reg) (gl : List G1) (c : Circuit) (h : c.NodesSat Q)
+    (hb : ∀ g r, Q (Op.base1 g r)) :
+    (gl.foldl (fun c' g => c'.insertAt (Op.base1 g r) [⟨r, (c'.wire r).idxOf n⟩]) c).NodesSat Q := by
+  induction gl generalizing c with
+  | nil => exact h
+  | cons g gl ih =>
+    simp only [List.foldl_cons]
+    exact ih _ (NodesSat_insertAt c _ _ h (hb g r))
+
+theorem NodesSat_unwrapNode {Q : Op → Prop} (c : Circuit) (n : Nat) (h : c.NodesSat Q)
+    (hb : ∀ g r, Q (Op.base1 g r)) : (c.unwrapNode n).NodesSat Q := by
+  unfold Circuit.unwrapNode
+  split
+  · exact NodesSat_removeOp _ n (NodesSat_unwrapFold n _ _ c h hb)
+  · exact h
+
+theorem NodesSat_unwrapNodes {Q : Op → Prop} (c : Circuit) (order : List Nat) (h : c.NodesSat Q)
+    (hb : ∀ g r, Q (Op.base1 g r)) : (c.unwrapNodes order).NodesSat Q := by
+  unfold Circuit.unwrapNodes
+  induction order generalizing c with
+  | nil => exact h
+  | cons n order ih =>
+    simp only [List.foldl_cons]
+    exact ih _ (NodesSat_unwrapNode c n h hb)
+
+theorem NodesSat_gStep1 {Q : Op → Prop} (s : GroupSt) (n : Nat) (h : s.c.NodesSat Q) : (gStep1 s n).c.NodesSat Q := by
+  unfold gStep1
+  split
+  · split
+    · exact NodesSat_removeOp _ n h
+    · exact NodesSat_removeOp _ n h
+  · exact h
+
+theorem NodesSat_gStep2 {Q : Op → Prop} (r : Reg) (rest : List Nat) (s : GroupSt) (h : s.c.NodesSat Q)
+    (hw : ∀ gs, gs ≠ [] → Q ⟨.wrapper gs, [r], [], false⟩) : (gStep2 r rest s).c.NodesSat Q := by
+  unfold gStep2
+  split
+  · rename_i hc
+    simp only [Bool.and_eq_true, Bool.not_eq_true', List.isEmpty_eq_false_iff] at hc
+    exact NodesSat_insertAt _ _ _ h (hw _ hc.2)
+  · exact h
+
+theorem NodesSat_groupWalk {Q : Op → Prop} (r : Reg) (rest : List Nat) (s : GroupSt) (h : s.c.NodesSat Q)
+    (hw : ∀ gs, gs ≠ [] → Q ⟨.wrapper gs, [r], [], false⟩) : (groupWalk r rest s).c.NodesSat Q := by
+  induction rest generalizing s with
+  | nil => exact h
+  | cons n rest ih =>
+    rw [groupWalk_cons]
+    exact ih _ (NodesSat_gStep2 r rest _ (NodesSat_gStep1 s n h) hw)
+
+theorem NodesSat_groupFold {Q : Op → Prop} (order : List Reg) (s : GroupSt) (h : s.c.NodesSat Q)
+    (hw : ∀ r gs, gs ≠ [] → Q ⟨.wrapper gs, [r], [], false⟩) :
+    (order.foldl (fun s r => groupWalk r (s.c.wire r).reverse { s with gates := [] }) s).c.NodesSat Q := by
+  induction order generalizing s with
+  | nil => exact h
+  | cons r order ih =>
+    simp only [List.foldl_cons]
+    exact ih _ (NodesSat_groupWalk r _ { s with gates := [] } h (hw r))
+
+theorem NodesSat_group {Q : Op → Prop} (c : Circuit) (order : List Reg) (c' : Circuit) (h : c.NodesSat Q)
+    (hw : ∀ r gs, gs ≠ [] → Q ⟨.wrapper gs, [r], [], false⟩) (hg : c.groupOneQubitGates order = Except.ok c') :
+    c'.NodesSat Q := by
+  unfold Circuit.groupOneQubitGates at hg
+  simp only at hg
+  split at hg
+  · cases hg
+  · cases hg
+    exact NodesSat_groupFold order ⟨c, [], false⟩ h hw
+
+/-- what the semantic theorem needs of every operation: at least one quantum register, duplicate-free registers -/
+def OpOk (op : Op) : Prop := op.q ≠ [] ∧ op.addRegs.Nodup
+
+theorem QNonempty_of_NodesSat (c : Circuit) (h : c.NodesSat OpOk) : c.QNonempty := fun n op hn => (h n op hn).1
+
+/-! ## 9. the class of circuits the semantic theorem is about, and its preservation by the rewrites -/
+
+/-- per-operation sanity: at least one quantum register; registers duplicate-free; classical registers exist;
+    one-qubit-labelled operations act on one register and one-qubit gates have no classical register -/
+def OpGood (nc : Nat) (op : Op) : Prop :=
+  op.q ≠ [] ∧ op.addRegs.Nodup ∧ (∀ i, i ∈ op.cr → i < nc) ∧
+  (op.kind.oneQubitLabel = true → (∃ r, op.q = [r]) ∧ (op.kind.isGate1 = true → op.cr = []))
+
+/-- well-formed circuits all of whose operations are sane -/
+def Circuit.Good (c : Circuit) : Prop := c.WF ∧ c.NodesSat (OpGood c.nc)
+
+theorem good_arity1 {c : Circuit} (h : c.Good) : c.Arity1 := fun n op hn hl => (h.2 n op hn).2.2.2 hl
+theorem good_opsOk {c : Circuit} (h : c.Good) : c.OpsOk := fun n op hn => ⟨(h.2 n op hn).2.1, (h.2 n op hn).2.2.1⟩
+theorem good_qNonempty {c : Circuit} (h : c.Good) : c.QNonempty := fun n op hn => (h.2 n op hn).1
+
+theorem OpGood_base1 (nc : Nat) (g : G1) (r : Reg) : OpGood nc (Op.base1 g r) :=
+  ⟨by simp [Op.base1], by simp [Op.base1, Op.addRegs], fun i hi => by simp [Op.base1] at hi,
+   fun _ => ⟨⟨r, rfl⟩, fun _ => rfl⟩⟩
+
+theorem OpGood_wrapper (nc : Nat) (gs : List G1) (r : Reg) : OpGood nc ⟨.wrapper gs, [r], [], false⟩ :=
+  ⟨by simp, by simp [Op.addRegs], fun i hi => by simp at hi, fun _ => ⟨⟨r, rfl⟩, fun _ => rfl⟩⟩
+
+theorem flat_nc {c c' : Circuit} (h : c'.flat = c.flat) : c'.nc = c.nc := by
+  simp only [Circuit.flat, Prod.mk.injEq] at h
+  exact h.2.2.1
+
+theorem WF_removeIdentity (c : Circuit) (order : List Nat) (h : c.WF) : (c.removeIdentity order).WF := by
+  unfold Circuit.removeIdentity
+  induction order generalizing c with
+  | nil => exact h
+  | cons n order ih =>
+    simp only [List.foldl_cons]
+    apply ih
+    split
+    · exact WF_removeOp c n h
+    · exact h
+
+theorem Good_removeIdentity (c : Circuit) (order : List Nat) (h : c.Good) : (c.removeIdentity order).Good := by
+  refine ⟨WF_removeIdentity c order h.1, ?_⟩
+  rw [flat_nc (flat_removeIdentity c order)]
+  exact NodesSat_removeIdentity c order h.2
+
+theorem Good_unwrapNodes (c : Circuit) (order : List Nat) (h : c.Good) : (c.unwrapNodes order).Good := by
+  obtain ⟨hwf', hflat⟩ := flat_unwrapNodes c order h.1
+  refine ⟨hwf', ?_⟩
+  rw [flat_nc hflat]
+  exact NodesSat_unwrapNodes c order h.2 (OpGood_base1 c.nc)
+
+theorem Good_group (c : Circuit) (order : List Reg) (c' : Circuit) (h : c.Good)
+    (hg : c.groupOneQubitGates order = Except.ok c') : c'.Good := by
+  obtain ⟨hwf', _, hflat⟩ := flat_groupOneQubitGates c order c' h.1 (good_arity1 h) hg
+  refine ⟨hwf', ?_⟩
+  rw [flat_nc hflat]
+  exact NodesSat_group c order c' h.2 (fun r gs _ => OpGood_wrapper c.nc gs r) hg
+
+theorem Good_assignNoise (c : Circuit) (seq : List Nat) (c' : Circuit) (h : c.Good)
+    (hg : c.assignNoise seq = Except.ok c') : c'.Good := by
+  obtain ⟨hflat, hwf', hnodes⟩ := flat_assignNoise c seq c' h.1 (good_opsOk h) hg
+  refine ⟨hwf', ?_⟩
+  rw [flat_nc hflat]
+  intro m op hm
+  obtain ⟨n, hn⟩ := hnodes m op hm
+  exact h.2 n op hn
+
+/-- the result of one of the five rewrites of C13 -/
+inductive Rewrites (c : Circuit) : Circuit → Prop where
+  | copy : Rewrites c c.copy
+  | unwrap (order : List Nat) : Rewrites c (c.unwrapNodes order)
+  | removeIdentity (order : List Nat) : Rewrites c (c.removeIdentity order)
+  | group (order : List Reg) (c' : Circuit) (h : c.groupOneQubitGates order = Except.ok c') : Rewrites c c'
+  | assignNoise (seq : List Nat) (c' : Circuit) (h : c.assignNoise seq = Except.ok c') : Rewrites c c'
+
+theorem Rewrites.flat_eq {c c' : Circuit} (hgood : c.Good) (h : Rewrites c c') : c'.flat = c.flat := by
+  cases h with
+  | copy => rfl
+  | unwrap order => exact (flat_unwrapNodes c order hgood.1).2
+  | removeIdentity order => exact flat_removeIdentity c order
+  | group order c' h => exact (flat_groupOneQubitGates c order c' hgood.1 (good_arity1 hgood) h).2.2
+  | assignNoise seq c' h => exact (flat_assignNoise c seq c' hgood.1 (good_opsOk hgood) h).1
+
+theorem Rewrites.good {c c' : Circuit} (hgood : c.Good) (h : Rewrites c c') : c'.Good := by
+  cases h with
+  | copy => exact hgood
+  | unwrap order => exact Good_unwrapNodes c order hgood
+  | removeIdentity order => exact Good_removeIdentity c order hgood
+  | group order c' h => exact Good_group c order c' hgood h
+  | assignNoise seq c' h => exact Good_assignNoise c seq c' hgood h
+
+theorem Good_empty (ne np nc : Nat) : (Circuit.empty ne np nc).Good :=
+  ⟨WF_empty ne np nc, fun n op h => by simp [Circuit.empty] at h⟩
+
+theorem Good_addCore (c : Circuit) (op : Op) (h : c.Good) (hop : OpGood c.nc op)
+    (hqv : ∀ r, r ∈ op.q → c.validReg r = true ∧ r.ty ≠ .c) : (c.addCore op).Good := by
+  refine ⟨WF_addCore c op h.1 hop.2.1 hqv (fun i hi => validReg_c c i (hop.2.2.1 i hi)), ?_⟩
+  rw [addCore_nc, addCore_eq]
+  exact NodesSat_insertAt c op _ h.2 hop
+
+/-! ### frame conditions -/
+
+theorem exec_keeps_objects (w : World) (call : Call) : (w.exec call).circuits.take w.circuits.length = w.circuits := by
+  simp [World.exec]
+
+theorem exec_keeps_object (w : World) (call : Call) (i : Nat) (c : Circuit) (h : w.circuits[i]? = some c) :
+    (w.exec call).circuits[i]? = some c := by
+  have hlt : i < w.circuits.length := by
+    rcases Nat.lt_or_ge i w.circuits.length with h' | h'
+    · exact h'
+    · rw [List.getElem?_eq_none h'] at h; cases h
+  simp only [World.exec]
+  rw [List.getElem?_append_left hlt]
+  exact h
 
 end Graphiq.Wire
